@@ -641,6 +641,14 @@ class DiskFile(VirtualFileContainer):
         if not allocated_granules:
             return
 
+        # The postamble follows the data in the granule chain: append it to the data so that it continues in the
+        # next allocated granule instead of running past the end of the current one
+        if first_granule and postamble:
+            postamble_data = [0x00] * postamble.length
+            postamble.write(postamble_data, 0)
+            file_data = list(file_data) + postamble_data
+            postamble = None
+
         granule = allocated_granules[0]
         allocated_granules = allocated_granules[1:]
         pointer = self.seek_granule(granule)
